@@ -375,10 +375,9 @@ package modules
 //@   modifies *
 //@   ghost var submitted bool = false
 //@   ghost var inc int32 = 0
-//@   at select mediumPriorityClearance assert chan0 == mediumPriorityClearance
-//@   at select mediumPriorityClearance ghost submitted = (submitted || index == 0)
-//@   at call atomic.AddInt32 assert arg0 == microTasks
-//@   at call atomic.AddInt32 ghost inc = inc + arg1
+//@   at select ghost submitted = (submitted || (index == 0 && chan0 == mediumPriorityClearance))
+//@   at optional call atomic.AddInt32 assert arg0 == microTasks
+//@   at optional call atomic.AddInt32 ghost inc = inc + arg1
 //@   ensures inc == (submitted ? int32(0) : int32(1))
 
 //@ func getLowPriorityClearance
@@ -386,10 +385,9 @@ package modules
 //@   modifies *
 //@   ghost var submitted bool = false
 //@   ghost var inc int32 = 0
-//@   at select lowPriorityClearance assert chan0 == lowPriorityClearance
-//@   at select lowPriorityClearance ghost submitted = (submitted || index == 0)
-//@   at call atomic.AddInt32 assert arg0 == microTasks
-//@   at call atomic.AddInt32 ghost inc = inc + arg1
+//@   at select ghost submitted = (submitted || (index == 0 && chan0 == lowPriorityClearance))
+//@   at optional call atomic.AddInt32 assert arg0 == microTasks
+//@   at optional call atomic.AddInt32 ghost inc = inc + arg1
 //@   ensures inc == (submitted ? int32(0) : int32(1))
 
 // blocking variants: the function runs through runMicroTask exactly once and its error comes back
